@@ -473,9 +473,14 @@ func (w *World) Do(s Step) {
 	case "Reopen":
 		w.reopen(r, s.Loaders)
 	case "DeleteClocks":
-		ev := &Event{Ev: "DeleteClocks"}
-		_ = os.Remove(filepath.Join(r.dir, ".git", "git-bug", "clocks", "bugs-edit"))
-		_ = os.Remove(filepath.Join(r.dir, ".git", "git-bug", "clocks", "bugs-create"))
+		// b: 0 = both clock files, 1 = the edit clock only, 2 = the creation clock only
+		ev := &Event{Ev: "DeleteClocks", B: s.B}
+		if s.B == 0 || s.B == 1 {
+			_ = os.Remove(filepath.Join(r.dir, ".git", "git-bug", "clocks", "bugs-edit"))
+		}
+		if s.B == 0 || s.B == 2 {
+			_ = os.Remove(filepath.Join(r.dir, ".git", "git-bug", "clocks", "bugs-create"))
+		}
 		w.project(ev, r)
 		r.hadEdit, r.hadCreate = true, true
 		ev.Clk = Clk{E: -1, C: -1, De: -1, Dc: -1} // files gone; the process still holds its memory clocks (not observable without a hook)
